@@ -19,11 +19,13 @@ ASSUME = ['a C call (BLAS/LAPACK, with the GIL released) is atomic for the sched
           'fresh-interpreter reference results are computed in a separate python process per case',
           'entry points without an iterations field (cpl, cp, gp) are checked through result identity only']
 BOUNDS = {'quick': '10 entry points x 6 options; histories depth 3; 1 thread pair with 1 preemption at every line-granularity point of both threads, 1 mixed pair (coneqp, cpl) with 1 preemption at every call-granularity point',
-          'thorough': 'histories depth 4; 3 line-granularity pairs, 6 call-granularity pairs, 2 preemptions at call granularity for 2 pairs'}
+          'thorough': 'histories depth 4; 3 line-granularity pairs, 6 call-granularity pairs, 2 preemptions at call granularity for 2 pairs (first preemption at points 0..119 of the start thread, second at points 0..119 of the other thread: option parsing, argument conversion and the first iterations of both solves)'}
 TECHNIQUE = 'preemption-bounded exhaustive schedule exploration (CHESS style) + explicit-state BFS over option/call histories + exhaustive options matrix'
 
 LINE_CAP = 4000
 CALL_CAP = 1500
+SCHED2_K = 120         # two-preemption schedules: first preemption at points < SCHED2_K, second at points < SCHED2_J
+SCHED2_J = 120
 ENTRIES = ['conelp', 'lp', 'socp', 'sdp', 'coneqp', 'qp', 'cpl', 'cp', 'gp', 'opsolve']
 
 
@@ -134,13 +136,14 @@ def cases(tier, seed, flavour):
     line_pairs = [('lp', 'lp')] if tier == 'quick' else [('lp', 'lp'), ('conelp', 'conelp'), ('coneqp', 'qp')]
     call_pairs = [('coneqp', 'cpl')] if tier == 'quick' else \
         [('conelp', 'conelp'), ('coneqp', 'cpl'), ('socp', 'cp'), ('lp', 'opsolve'), ('sdp', 'qp'), ('gp', 'cp')]
+    line_cap = LINE_CAP if tier == 'quick' else 9000
     for pr, gran in [(p, 'line') for p in line_pairs] + [(p, 'call') for p in call_pairs]:
-        yield {'part': 'sched-count', 'pair': list(pr), 'gran': gran, 'seed': seed}
+        yield {'part': 'sched-count', 'pair': list(pr), 'gran': gran, 'seed': seed, 'cap': line_cap if gran == 'line' else CALL_CAP}
     # the one-preemption schedules are sharded in chunks; the number of points is checked by the 'sched-count' case
     # (a point index beyond the count ends the shard and is not counted)
     for pr in line_pairs:
         for start in (0, 1):
-            for lo in range(0, LINE_CAP, 125):
+            for lo in range(0, line_cap, 125):
                 yield {'part': 'sched', 'pair': list(pr), 'gran': 'line', 'start': start, 'lo': lo, 'hi': lo + 125, 'seed': seed}
     for pr in call_pairs:
         for start in (0, 1):
@@ -149,8 +152,8 @@ def cases(tier, seed, flavour):
     if tier == 'thorough':
         for pr in call_pairs[:2]:
             for start in (0, 1):
-                for lo in range(0, 400, 4):
-                    yield {'part': 'sched2', 'pair': list(pr), 'gran': 'call', 'start': start, 'lo': lo, 'hi': lo + 4, 'seed': seed}
+                for lo in range(0, SCHED2_K, 2):
+                    yield {'part': 'sched2', 'pair': list(pr), 'gran': 'call', 'start': start, 'lo': lo, 'hi': lo + 2, 'seed': seed}
 
 
 # ------------------------------------------------------------------------------------------------ part 1
@@ -379,7 +382,7 @@ def run_sched(case):
                 if _image(ex.results[t] if ex.errors[t] is None else ex.errors[t]) != seq[t]:
                     viol.append({'key': 'C09:sched:result-differs-from-sequential@%s' % pair[t],
                                  'msg': 'zero-preemption schedule (start %d): thread %d result differs from its sequential result' % (start, t)})
-            cap = LINE_CAP if case['gran'] == 'line' else CALL_CAP
+            cap = case.get('cap') or (LINE_CAP if case['gran'] == 'line' else CALL_CAP)
             if ex.points[start] >= cap:
                 viol.append({'key': 'C09:harness:more-points-than-sharded', 'msg': 'thread %d passes %d scheduling points, shards cover %d' % (start, ex.points[start], cap)})
         return {'n': n, 'nontrivial': 0, 'viol': viol, 'outcomes': {'schedules-0-preemptions': n}, 'extra': outs,
@@ -390,7 +393,7 @@ def run_sched(case):
     else:
         # two preemptions at call granularity: preempt the start thread at k, then the other thread at every j
         other = 1 - start
-        plans = [[(start, k), (other, j)] for k in range(case['lo'], case['hi']) for j in range(0, 400)]
+        plans = [[(start, k), (other, j)] for k in range(case['lo'], case['hi']) for j in range(0, SCHED2_J)]
     npts = None
     for plan in plans:
         if npts is not None and plan[0][1] >= npts:
